@@ -66,6 +66,9 @@ def build(W):
         itg = add("itg" + tag, W.integral(p, "cell", m0, 1, {"q": 2}), "itg")
         add("form" + tag, W.form([itg]), "form")
         add("(f+c)*v" + tag, W.new("Product", s, v), "(f+c)*v")
+        Vd = W.new("ufl.functionspace.DualSpace", m0, el("P", 1))
+        k1, k2 = W.new("ufl.coefficient.Cofunction", Vd, 11), W.new("ufl.coefficient.Cofunction", Vd, 12)
+        add("k1 - k2" + tag, W.new("ufl.form.FormSum", (k1, 1), (k2, -1)), "k1 - k2")
     m0 = W.mesh(0)
     V = W.space(m0, el("P", 1))
     f, c, v = W.coefficient(V, 0), W.constant(m0, 0), W.argument(V, 0)
@@ -142,6 +145,20 @@ def build(W):
     add("form(2 integrals)", W.form([W.integral(p, "cell", m0, 1, {"q": 2}), W.integral(p, "cell", m0, 2, {})]))
     add("form(id 2)", W.form([W.integral(p, "cell", m0, 2, {"q": 2})]))
     add("form(empty)", W.form([]))
+    # weighted sums of base forms: components and weights are both part of the value (hash(-1) == hash(-2) in CPython)
+    Vd = W.new("ufl.functionspace.DualSpace", m0, el("P", 1))
+    k1, k2, k3 = (W.new("ufl.coefficient.Cofunction", Vd, 11 + n) for n in range(3))
+    FS = lambda *pairs: W.new("ufl.form.FormSum", *pairs)  # noqa: E731
+    add("k1 - 2*k2", FS((k1, 1), (k2, -2)))
+    add("k1 - 3*k2", FS((k1, 1), (k2, -3)))
+    add("-k1 + k2... weights (-1, 1)", FS((k1, -1), (k2, 1)))
+    add("-2*k1 + k2", FS((k1, -2), (k2, 1)))
+    add("k1 + k2", FS((k1, 1), (k2, 1)))
+    add("k2 - k1 (components exchanged)", FS((k2, 1), (k1, -1)))
+    add("k1 - k3", FS((k1, 1), (k3, -1)))
+    add("k1 - k2 + k3", FS((k1, 1), (k2, -1), (k3, 1)))
+    add("k1 - k2 - k3", FS((k1, 1), (k2, -1), (k3, -1)))
+    add("k1 - k2 - 2*k3", FS((k1, 1), (k2, -1), (k3, -2)))
     return U
 
 
@@ -388,6 +405,8 @@ def run(ctx) -> Report:
     for k, (nm, o) in enumerate(zip(names, objs)):
         if nm.endswith("'"):
             continue
+        if ip.obj_class(o) is not None and ip.obj_class(o).name == "FormSum":
+            continue  # the round trip is stated for expressions; a weighted sum of base forms prints as `w*c + ...` for reading only
         r = before[k][0]
         if r is None:
             continue
